@@ -336,7 +336,10 @@ func c15BaseUnits(ctx *core.Ctx) []core.Unit {
 			if a.reg.Sign() != 0 {
 				inv.ModInverse(a.reg, bigR)
 			}
-			z.Inverse(&a.e)
+			z = dirtyFr()
+			if ret := z.Inverse(&a.e); ret != &z {
+				vio(r, "c15.value", "fr.Element.Inverse", in, "returns its receiver", "another pointer")
+			}
 			chk(r, "Inverse", in, z, inv)
 			z = a.e
 			z.Inverse(&z)
